@@ -375,6 +375,24 @@ func matchParts(ps []strPart, format string) ([]*an.Term, bool) {
 	return args, got == format
 }
 
+// assumesEmptyComposed: the path assumes that a string composed around a non-empty literal (Sprintf with literal text
+// in its format, "lit" + x) is the empty string — no execution takes such a path.
+func assumesEmptyComposed(s *an.PathState) bool {
+	for _, a := range s.Atoms {
+		if a.Op != "==" || a.B == nil || !a.B.IsConst(`""`) || a.A == nil || a.A.Op == "const" {
+			continue
+		}
+		if ps, ok := strParts(a.A); ok {
+			for _, p := range ps {
+				if p.Arg == nil && p.Lit != "" {
+					return true
+				}
+			}
+		}
+	}
+	return false
+}
+
 // writtenText: the text a write-like call puts on its destination: (destination, text parts).
 func writtenText(callee string, args []*an.Term) (dst *an.Term, parts []strPart, ok bool) {
 	switch callee {
